@@ -36,10 +36,10 @@ impl InstructionGenerator {
             self.jump_if_false("begin-dim", pos);
             self.jump("end-dim", pos);
             self.label("begin-dim", pos);
-            self.generate_dim_name(dim_name, shared, pos);
+            self.generate_dim_name(dim_name, shared, is_redim, pos);
             self.label("end-dim", pos);
         } else {
-            self.generate_dim_name(dim_name, shared, pos);
+            self.generate_dim_name(dim_name, shared, is_redim, pos);
         }
     }
 }
@@ -55,7 +55,7 @@ impl InstructionGenerator {
         }
     }
 
-    fn generate_dim_name(&mut self, dim_name: DimVar, shared: bool, pos: Position) {
+    fn generate_dim_name(&mut self, dim_name: DimVar, shared: bool, is_redim: bool, pos: Position) {
         let (bare_name, dim_type) = dim_name.into();
         match dim_type {
             DimType::Array(array_dimensions, box_element_type) => {
@@ -85,13 +85,16 @@ impl InstructionGenerator {
 
                 self.push(Instruction::AllocateArrayIntoA(element_type), pos);
 
-                self.push(
-                    Instruction::VarPathName(RootPath {
-                        name: Name::new(bare_name, opt_q),
-                        shared,
-                    }),
-                    pos,
-                );
+                let name = Name::new(bare_name, opt_q);
+                // REDIM inside a subprogram of an array that is SHARED at module level
+                // stores the new array in the module's variable
+                let shared = shared
+                    || (is_redim
+                        && self
+                            .linter_names
+                            .get_resolved_variable_info(&self.current_subprogram, &name)
+                            .shared);
+                self.push(Instruction::VarPathName(RootPath { name, shared }), pos);
                 self.push(Instruction::CopyAToVarPath, pos);
             }
             DimType::BuiltIn(q, _) => {
